@@ -28,7 +28,7 @@ import subprocess
 import tempfile
 from pathlib import Path
 
-KINDS = ["openat", "write", "pwrite64", "pwritev", "writev", "mkdir", "mkdirat", "unlink", "unlinkat", "rmdir", "rename", "renameat", "renameat2", "ftruncate", "truncate"]
+KINDS = ["openat", "write", "pwrite64", "pwritev", "writev", "mkdir", "mkdirat", "unlink", "unlinkat", "rmdir", "rename", "renameat", "renameat2", "ftruncate", "truncate", "sendfile", "copy_file_range", "fallocate", "link", "linkat", "symlink", "symlinkat", "chmod", "fchmod", "fchmodat", "utimensat", "fsync", "fdatasync"]
 
 
 class StraceUnavailable(Exception):
